@@ -340,7 +340,7 @@ func init() {
 			"Concurrent part (40% of the runs): 6-15 (thorough 10-49) rounds of 2-4 overlapping admissions (lock, then body write), finalization-path takeovers and lock reads over a contested slot, interleaved at store mutex acquisitions and Badger transaction begin/commit by a seeded scheduler (one task runs at a time); each round must be linearizable against the holder model (exhaustive search over the orders that respect real-time precedence) and leave the state that order produces; " +
 			"non-trivial = at least one lock granted and one refused; distinct = canonical-log digests. The cluster double-spend monitor (evidence of C01/C17 runs) adds the cross-node part.",
 		Components: r3Components,
-		Assume:     r3Assume,
+		Assume:     []string{"A1 Badger commit atomic and durable at return", "A3 (overlap finer than one Store call equals a serial order or ErrConflict) is assumed by the sequential part only; the concurrent part tests it at store-mutex / Badger-transaction granularity, not inside Badger"},
 		Gen:        c03Gen,
 		Exec:       c03Exec,
 		QuickRuns:  300, ThoroughRuns: 6000,
